@@ -99,6 +99,16 @@ func VH_C06() {
 			vAssume((c >= 0x20 && c < 0x7f && c != '<' && c != '>' && c != '&') || c == '\n')
 		}
 	}
+	if vParam("tail", 0) == 1 {
+		// longer messages: a symbolic head followed by a concrete tail that
+		// crosses the minimal width, on the same line or on a second line
+		switch vChoose(3) {
+		case 1:
+			msg += strings.Repeat("x", 34)
+		case 2:
+			msg += "\n" + strings.Repeat("y", 40)
+		}
+	}
 	blank := strings.Trim(msg, "\n\r \t") == ""
 	// attributes
 	var attrs Attrs
